@@ -16,6 +16,7 @@ def AwaitFrame (f : Outcome → Gen) : Prop := ∀ o, ∃ g', f o = .emit (.aw o
 inductive Good : Gen → Prop
   | done (o) : Good (.done o)
   | await (k) : (∀ o, Good (k o)) → AwaitFrame k → Good (.await k)
+  | awaitC (k) : (∀ o, Good (k o)) → AwaitFrame k → Good (.awaitC k)
   | yieldv (v k) : (∀ x, Good (k x)) → Good (.yieldv v k)
   | emit (e g) : Good g → Good (.emit e g)
   | call (inner k) : Good inner → (∀ o, Good (k o)) → Good (.call inner k)
@@ -40,25 +41,27 @@ theorem loopG_good (body : Nat → Kont → Gen) (hb : ∀ acc κ, GoodK κ → 
     · exact h _ _
     · exact h _ _
 
-theorem denote_good (s : Stmt) : ∀ acc κ, GoodK κ → Good (denote s acc κ) := by
+theorem denote_good (s : Stmt) : ∀ coro acc κ, GoodK κ → Good (denote coro s acc κ) := by
   induction s with
-  | skip => intro acc κ h; exact h _ _
+  | skip => intro coro acc κ h; exact h _ _
   | await =>
-    intro acc κ h
-    exact .await _ (fun o => .emit _ _ (deliver_good h o acc)) (fun o => ⟨_, rfl⟩)
-  | yieldv e => intro acc κ h; exact .yieldv _ _ (fun x => .emit _ _ (h _ _))
-  | set e => intro acc κ h; exact h _ _
-  | mark m => intro acc κ h; exact .emit _ _ (h _ _)
+    intro coro acc κ h
+    cases coro
+    · exact .await _ (fun o => .emit _ _ (deliver_good h o acc)) (fun o => ⟨_, rfl⟩)
+    · exact .awaitC _ (fun o => .emit _ _ (deliver_good h o acc)) (fun o => ⟨_, rfl⟩)
+  | yieldv e => intro coro acc κ h; exact .yieldv _ _ (fun x => .emit _ _ (h _ _))
+  | set e => intro coro acc κ h; exact h _ _
+  | mark m => intro coro acc κ h; exact .emit _ _ (h _ _)
   | seq a b iha ihb =>
-    intro acc κ h
+    intro coro acc κ h
     rw [denote]; apply iha
     intro c acc'
     cases c
-    · exact ihb acc' κ h
+    · exact ihb coro acc' κ h
     · exact h _ _
     · exact h _ _
   | tryExcept body cf hd ihb ihh =>
-    intro acc κ h
+    intro coro acc κ h
     rw [denote]; apply ihb
     intro c acc'
     cases c with
@@ -67,35 +70,36 @@ theorem denote_good (s : Stmt) : ∀ acc κ, GoodK κ → Good (denote s acc κ)
     | raise e =>
       simp only
       split
-      · exact ihh _ κ h
+      · exact ihh coro _ κ h
       · exact h _ _
   | tryFinally body fin ihb ihf =>
-    intro acc κ h
+    intro coro acc κ h
     rw [denote]; apply ihb
     intro c acc'
     apply ihf
     intro c2 acc''
     cases c2 <;> exact h _ _
-  | loop k body ih => intro acc κ h; rw [denote]; exact loopG_good _ ih k acc κ h
-  | ret e => intro acc κ h; exact h _ _
-  | raise m => intro acc κ h; exact h _ _
+  | loop k body ih => intro coro acc κ h; rw [denote]; exact loopG_good _ (ih coro) k acc κ h
+  | ret e => intro coro acc κ h; exact h _ _
+  | raise m => intro coro acc κ h; exact h _ _
+  | raiseB m => intro coro acc κ h; exact h _ _
   | ifLt m a b iha ihb =>
-    intro acc κ h
+    intro coro acc κ h
     rw [denote]
     split
-    · exact iha acc κ h
-    · exact ihb acc κ h
-  | call w p ih =>
-    intro acc κ h
+    · exact iha coro acc κ h
+    · exact ihb coro acc κ h
+  | call w ic p ih =>
+    intro coro acc κ h
     cases w with
     | true =>
       rw [denote]
-      exact .call _ _ (ih 0 _ (fun c acc' => .done _)) (fun o => .emit _ _ (deliver_good h o acc))
+      exact .call _ _ (ih ic 0 _ (fun c acc' => .done _)) (fun o => .emit _ _ (deliver_good h o acc))
     | false =>
       rw [denote]
-      exact ih 0 _ (fun c acc' => .emit _ _ (deliver_good h _ acc))
+      exact ih coro 0 _ (fun c acc' => .emit _ _ (deliver_good h _ acc))
 
-theorem gen_good (p : Stmt) : Good (gen p) := denote_good p 0 _ (fun _ _ => .done _)
+theorem gen_good (coro : Bool) (p : Stmt) : Good (gen coro p) := denote_good p coro 0 _ (fun _ _ => .done _)
 
 def GoodFrames (fs : List (Outcome → Gen)) : Prop := ∀ f, f ∈ fs → ∀ o, Good (f o)
 def HeadAwait (fs : List (Outcome → Gen)) : Prop := ∀ f rest, fs = f :: rest → AwaitFrame f
@@ -118,7 +122,20 @@ theorem runGen_good {g : Gen} (hg : Good g) : ∀ s,
     simp only [runGen]
     split
     · rename_i o _
-      obtain ⟨l, r⟩ := ih o { (s.setD s.next { s.ds s.next with result := none }) with next := s.next + 1 }
+      obtain ⟨l, r⟩ := ih o.outcome { (s.setD s.next { s.ds s.next with result := none }) with next := s.next + 1 }
+      exact ⟨l, r⟩
+    · refine ⟨LogExt.refl s, fun fs h => ?_⟩
+      simp only [Susp.suspended.injEq] at h
+      subst h
+      refine ⟨by simp, fun f hf o => ?_, fun f rest h => ?_⟩
+      · simp at hf; subst hf; exact hk o
+      · simp at h; rw [← h.1]; exact ha
+  | awaitC k hk ha ih =>
+    intro s
+    simp only [runGen]
+    split
+    · rename_i o _
+      obtain ⟨l, r⟩ := ih o.outcome { s with next := s.next + 1 }
       exact ⟨l, r⟩
     · refine ⟨LogExt.refl s, fun fs h => ?_⟩
       simp only [Susp.suspended.injEq] at h
@@ -221,8 +238,9 @@ theorem GS.of_stack_eq {s s' : State} (g : GS s) (h : s'.stack = s.stack) : GS s
 theorem GS.of_nil {s : State} (h : s.stack = []) : GS s :=
   ⟨fun f hf => by rw [h] at hf; simp at hf, fun f rest hh => by rw [h] at hh; simp at hh⟩
 
-theorem fire_gs (s : State) (g : GS s) (i : Nat) (o : Outcome) : GS (fire s i o).1 := by
+theorem fire_gs (s : State) (g : GS s) (i : Nat) (x : Res) : GS (fire s i x).1 := by
   rw [fire_eq]
+  generalize x.outcome = o
   split
   · split
     · exact g.of_stack_eq rfl
@@ -272,18 +290,19 @@ theorem foldl_gs (es : List Event) : ∀ s, GS s → GS (es.foldl step s) := by
   | nil => intro s g; exact g
   | cons e es ih => intro s g; exact ih _ (step_gs s g e)
 
-theorem run_gs (p : Stmt) (specs : List Canc) (pre post : List Event) : GS (run p specs pre post) := by
+theorem run_gs (coro : Bool) (p : Stmt) (specs : List Canc) (pre post : List Event) : GS (run coro p specs pre post) := by
   refine foldl_gs post _ ?_
-  have hg : GoodFrames [fun _ => gen p] := by
-    intro f hf o; simp at hf; subst hf; exact gen_good p
-  have := unwind_good [fun _ => gen p] hg (.val 0) ((pre.foldl step (init specs)).mark .start)
+  have hg : GoodFrames [fun _ => gen coro p] := by
+    intro f hf o; simp at hf; subst hf; exact gen_good coro p
+  have := unwind_good [fun _ => gen coro p] hg (.val 0) ((pre.foldl step (init specs)).mark .start)
   exact ⟨this.2.1, this.2.2⟩
 
 /-- a fire that is accepted by the Deferred the function waits for: the function logs that outcome first -/
-theorem fire_hooked_log (s : State) (g : GS s) (i : Nat) (o : Outcome) (hc : (s.ds i).called = false)
+theorem fire_hooked_log (s : State) (g : GS s) (i : Nat) (x : Res) (hc : (s.ds i).called = false)
     (hne : s.stack ≠ []) (hon : s.waitingOn = some i) :
-    ∃ more, (fire s i o).1.log = s.log ++ .aw o :: more := by
+    ∃ more, (fire s i x).1.log = s.log ++ .aw x.outcome :: more := by
   rw [fire_eq]
+  generalize x.outcome = o
   have h1 : ¬ ((s.ds i).called = true) := by simp [hc]
   rw [if_neg h1]
   have h3 : (!s.stack.isEmpty && s.waitingOn == some i) = true := by
@@ -300,7 +319,7 @@ theorem fire_hooked_log (s : State) (g : GS s) (i : Nat) (o : Outcome) (hc : (s.
 
 /-- `cancel()` on the awaited, unfired Deferred: the first thing the function logs afterwards is the
     outcome that Deferred got -/
-theorem cancelD_log (p : Stmt) (s : State) (v : Inv p s) (g : GS s) (i : Nat) (hc : (s.ds i).called = false)
+theorem cancelD_log (coro : Bool) (p : Stmt) (s : State) (v : Inv coro p s) (g : GS s) (i : Nat) (hc : (s.ds i).called = false)
     (hne : s.stack ≠ []) (hon : s.waitingOn = some i) :
     ∃ more, (cancelD s i).log = s.log ++ .aw (cancelOutcome (s.ds i).canc) :: more := by
   have f0 := bumpCancel_flagEq s i
@@ -321,7 +340,7 @@ theorem cancelD_log (p : Stmt) (s : State) (v : Inv p s) (g : GS s) (i : Nat) (h
       rw [hcc]; exact flagEq_setD _ i _ rfl rfl rfl
     have hc1 : ((callCanceller (bumpCancel s i) i).ds i).called = false := by rw [(f1.ds i).1]; exact hc0
     simp only [hc1, Bool.not_false, if_true]
-    have := fire_hooked_log _ (g0.of_stack_eq f1.stack) i (.exc .cancelled) hc1
+    have := fire_hooked_log _ (g0.of_stack_eq f1.stack) i (.fail .plain .cancelled) hc1
       (by rw [f1.stack]; exact hne) (by rw [f1.waitingOn]; exact hon)
     rw [f1.log, hl0] at this
     exact this
@@ -330,20 +349,20 @@ theorem cancelD_log (p : Stmt) (s : State) (v : Inv p s) (g : GS s) (i : Nat) (h
       unfold callCanceller; rw [b_i]; simp [hcanc]
     rw [hcc]
     simp only [hc0, Bool.not_false, if_true]
-    exact fire_hooked_log _ g0 i (.exc .cancelled) hc0 hne hon
+    exact fire_hooked_log _ g0 i (.fail .plain .cancelled) hc0 hne hon
   | firesOk x =>
-    have hcc : callCanceller (bumpCancel s i) i = (fire (bumpCancel s i) i (.val x)).1 := by
+    have hcc : callCanceller (bumpCancel s i) i = (fire (bumpCancel s i) i (.ok x)).1 := by
       unfold callCanceller; rw [b_i]; simp [hcanc]
     rw [hcc]
-    have k := fire_facts _ v0.wfd i (v0.hooked_lt i) (.val x)
+    have k := fire_facts _ v0.wfd i (v0.hooked_lt i) (.ok x)
     simp only [(k.accepted hc0).1, Bool.not_true, Bool.false_eq_true, if_false]
-    exact fire_hooked_log _ g0 i (.val x) hc0 hne hon
-  | firesErr x =>
-    have hcc : callCanceller (bumpCancel s i) i = (fire (bumpCancel s i) i (.exc (.user x))).1 := by
+    exact fire_hooked_log _ g0 i (.ok x) hc0 hne hon
+  | firesErr c x =>
+    have hcc : callCanceller (bumpCancel s i) i = (fire (bumpCancel s i) i (.fail c x)).1 := by
       unfold callCanceller; rw [b_i]; simp [hcanc]
     rw [hcc]
-    have k := fire_facts _ v0.wfd i (v0.hooked_lt i) (.exc (.user x))
+    have k := fire_facts _ v0.wfd i (v0.hooked_lt i) (.fail c x)
     simp only [(k.accepted hc0).1, Bool.not_true, Bool.false_eq_true, if_false]
-    exact fire_hooked_log _ g0 i (.exc (.user x)) hc0 hne hon
+    exact fire_hooked_log _ g0 i (.fail c x) hc0 hne hon
 
 end TwistedProps.C05
